@@ -53,6 +53,9 @@ def lookup(ip, st, recv, name):
         st.ghost['looked_known'] = known
         st.ghost['looked_desc'] = desc
         st.ghost['looked_name'] = name
+        if n is not None:
+            # the entry's cells as they were before the function under verification touched them
+            st.ghost['looked_orig'] = st.new_list([Sym(st.get(x).sym, DESC_TY[1]) for x in inner])
     known, desc, _ = tab[key]
     return known, desc
 
